@@ -607,7 +607,8 @@ fn threads_case(n: usize, seed: u64, len: u64) -> String {
         let mut rng = Rng::new(seed.wrapping_mul(31).wrapping_add(i as u64));
         handles.push(std::thread::spawn(move || {
             let mut log: Vec<String> = vec![];
-            let bias = rng.below(3); // 0: mostly votes, 1: balanced, 2: mostly rescinds
+            // 0: mostly votes, 1: balanced, 2: mostly rescinds, 3: strict vote / rescind alternation, 4: holds its vote
+            let bias = rng.below(5);
             barrier.wait();
             let call = |vote: bool, log: &mut Vec<String>| {
                 let a = ticket.fetch_add(1, Ordering::SeqCst);
@@ -621,11 +622,13 @@ fn threads_case(n: usize, seed: u64, len: u64) -> String {
                     b
                 ));
             };
-            for _ in 0..len {
+            for k in 0..len {
                 let vote = match bias {
                     0 => rng.chance(2, 3),
                     1 => rng.chance(1, 2),
-                    _ => rng.chance(1, 3),
+                    2 => rng.chance(1, 3),
+                    3 => k % 2 == 0,
+                    _ => true,
                 };
                 call(vote, &mut log);
                 if rng.chance(1, 8) {
@@ -753,7 +756,7 @@ fn main() {
                 let ops = match engine.as_str() {
                     "threads" => {
                         let n = rng.range(2, 3);
-                        let len = *rng.pick(&[2u64, 4, 8, 16, 40]);
+                        let len = *rng.pick(&[2u64, 4, 8, 16, 40, 120]);
                         vec![format!("threads {} {} {}", n, rng.next() % 1_000_000_007, len)]
                     }
                     _ => rt_gen(&mut rng),
